@@ -347,9 +347,9 @@ func runC10(tier string) int {
 		var want []string
 		switch ctx {
 		case 0:
-			src, want = "script S {\n\t"+csrc+"\n}\n", []string{"S::", "\t" + cout, "\treturn"}
+			src, want = "script S {\n\t"+csrc+"\n}\n", []string{"S::", "\t" + cout}
 		case 1:
-			src, want = "script S {\n\tpre\n\t"+csrc+"\n\tpost(x)\n}\n", []string{"S::", "\tpre", "\t" + cout, "\tpost x", "\treturn"}
+			src, want = "script S {\n\tpre\n\t"+csrc+"\n\tpost(x)\n}\n", []string{"S::", "\tpre", "\t" + cout, "\tpost x"}
 		default:
 			src, want = "script S {\n\tif (flag(F)) {\n\t\tpre\n\t\t"+csrc+"\n\t}\n\tpost\n}\n", []string{"\tpre", "\t" + cout}
 		}
@@ -359,6 +359,8 @@ func runC10(tier string) int {
 		got := nonBlank(strings.Split(res.Out, "\n"))
 		if ctx == 2 {
 			got = stretchOf(got, "\tpre", len(want))
+		} else if len(got) > len(want) {
+			got = got[:len(want)] // how the script ends after the command is C01's business
 		}
 		if res.Err != nil || res.Panic != "" || strings.Join(got, "\n") != strings.Join(want, "\n") {
 			r.Report(harness.Violation{Sig: fmt.Sprintf("C10:dictionary:role%d", role), Summary: fmt.Sprintf("command %q (context %d): error %v; emitted %q, want %q", csrc, ctx, res.Err, clip(res.Out, 300), strings.Join(want, "\n")), Replay: map[string]interface{}{"source": src, "want": strings.Join(want, "\n"), "output": res.Out}})
